@@ -157,7 +157,7 @@ Proof. intros st H. destruct (live st); [reflexivity|discriminate]. Qed.
 
 Lemma step_pinv : forall d s e, good_disc d -> pinv s -> pinv (step d s e).
 Proof.
-  intros d s e [G1 [G2 G3]] I. destruct e; cbn [step].
+  intros d s e [G1 [G2 [G3 G4]]] I. destruct e; cbn [step].
   - (* PGet *)
     destruct (cs s c) eqn:Hc; [assumption|].
     destruct (pool_get k (free s) (next s)) as [[b fr] nx] eqn:Hg.
@@ -196,6 +196,7 @@ Proof.
       assert (firstn (length dat) (h1 t) = dat) as Ht.
       { unfold h1. rewrite updh_same. apply write_at_zero_firstn. }
       assert (h1 (vid st) = heap s (vid st)) as Hv by (unfold h1; apply updh_other; assumption).
+      rewrite G4. cbn [andb].
       destruct (Nat.leb (vlen st + length dat) (vcap st)).
       * (* append in place *)
         apply pinv_update; try apply I; auto.
@@ -334,7 +335,8 @@ Proof.
     + cbn [cs]. rewrite !updc_same. cbn. rewrite V3, V4, V5, V6. reflexivity.
     + destruct (pool_get k (free s1) (next s1)) as [[b1 f1] n1].
       destruct (pool_get k (free s2) (next s2)) as [[b2 f2] n2].
-      destruct (Nat.leb (vlen b + length (firstn chunk data)) (vcap b)); cbn [cs]; rewrite !updc_same; cbn; rewrite V3, V4, V5, V6; reflexivity.
+      destruct (adopt_tmp d && Nat.eqb (vlen b) 0);
+        [|destruct (Nat.leb (vlen b + length (firstn chunk data)) (vcap b))]; cbn [cs]; rewrite !updc_same; cbn; rewrite V3, V4, V5, V6; reflexivity.
   - (* PPeek *)
     destruct (cs s1 c) as [a|] eqn:E1; destruct (cs s2 c) as [b|] eqn:E2; try discriminate; [|rewrite E1, E2; reflexivity].
     cbn [loc_of] in H. inversion H as [[V1 V2 V3 V4 V5 V6]].
@@ -381,7 +383,7 @@ Lemma noninterference : forall d, good_disc d -> forall es c,
 Proof.
   intros d G es c. pose proof (prun_pinv d es pinit G pinv_init) as I1.
   pose proof (alone_good d c es G) as I2.
-  pose proof (alone_local d c es pinit pinit (proj2 (proj2 G)) eq_refl) as L.
+  pose proof (alone_local d c es pinit pinit (proj1 (proj2 (proj2 G))) eq_refl) as L.
   unfold got_of.
   destruct (cs (prun d pinit es) c) as [a|] eqn:E1; destruct (cs (prun d pinit (alone c es)) c) as [b|] eqn:E2;
     cbn [loc_of] in L; try discriminate; [|reflexivity].
